@@ -75,6 +75,9 @@ func genPairScenarios(tier string) []*Scenario {
 					// cursor - under the shared lock, which the free-running -race pass sees)
 					id := "pair:" + f.name + ":" + sn + ":" + strings.Join(a, " ") + " | " + strings.Join(b, " ")
 					sc := &Scenario{ID: id, Prop: "C05", Seed: f.seeds[sn], Threads: [][][]string{{a}, {b}}, Atomic: true, Gen: true}
+					// two reading commands: only the free-running -race pass can see what they do to each
+					// other (hidden state written under the shared lock has no scheduling point in between)
+					sc.RaceOnly = f.ro[a[0]] && f.ro[b[0]]
 					out = append(out, sc)
 				}
 			}
